@@ -96,7 +96,7 @@ Seed(k, td) ==
     [mods |-> << Mod("M", td, <<>>, <<
        Asg("Top", TSeq(<< Def("b", Ref("Bo"), FALSE), Opt("i", TIntR(0, 255)), Def("e", Ref("En"), "c"),
                           Opt("t", Ref("Tn")),
-                          Mand("m", TSeq(<< Mand("u", TNull), Def("v", Ref("Bo"), FALSE) >>)),
+                          Mand("m", TSeq(<< Mand("u", Cx(TNull, 5)), Def("v", Ref("Bo"), FALSE) >>)),
                           Opt("n", Ref("Pt")), Mand("z", TOcts) >>)),
        Asg("Pt", TSeq(<< Mand("p", TBool), Opt("q", TInt) >>)),
        Asg("Bo", TBool), Asg("En", Enum3), Asg("Tn", Tg(TIntR(0, 255), "C", 5, "D")) >>) >>]
